@@ -510,6 +510,11 @@ func (an *Analysis) binAtom(x *ssa.BinOp, depth int) (*Atom, bool) {
 			}
 		}
 	}
+	// a status code that arrives as a parameter of a helper (`mustUnderstandStatus(code, …)`): the comparison is about the
+	// response whose StatusCode every caller passes
+	if sl := an.statusArgOf(l, 0); sl != nil {
+		l = sl
+	}
 	// status / method comparisons
 	if u, ok := l.(*ssa.UnOp); ok && u.Op == token.MUL {
 		if fa, ok := u.X.(*ssa.FieldAddr); ok {
@@ -887,4 +892,45 @@ func closeImplications(m map[string]bool) map[string]bool {
 		}
 	}
 	return out
+}
+
+// statusArgOf: when v is an int parameter of a repo function and every call site passes the StatusCode of a response (a
+// load of that field, directly or through such a parameter again), one of those loads; otherwise nil.
+func (an *Analysis) statusArgOf(v ssa.Value, depth int) ssa.Value {
+	if depth > 3 {
+		return nil
+	}
+	p, ok := an.canon(v).(*ssa.Parameter)
+	if !ok || !isIntType(p.Type()) {
+		return nil
+	}
+	fn := p.Parent()
+	idx := paramIndex(fn, p)
+	if idx < 0 {
+		return nil
+	}
+	callers := an.P.Callers(fn)
+	if len(callers) == 0 {
+		return nil
+	}
+	var found ssa.Value
+	for _, cs := range callers {
+		a := argForParam(cs.Instr.Common(), fn, idx)
+		if a == nil {
+			return nil
+		}
+		a = an.canon(a)
+		if u, ok := a.(*ssa.UnOp); ok && u.Op == token.MUL {
+			if fa, ok := u.X.(*ssa.FieldAddr); ok && isHTTPResponsePtr(fa.X.Type()) && fieldName(fa.X.Type(), fa.Field) == "StatusCode" {
+				found = u
+				continue
+			}
+		}
+		if r := an.statusArgOf(a, depth+1); r != nil {
+			found = r
+			continue
+		}
+		return nil
+	}
+	return found
 }
